@@ -131,6 +131,16 @@ def run(spec):
       frames.scribble(df_in, truth['names'])
       cls.append('caller-edits-frame-after-fit')
     rep = _summ(m, spec)
+    if spec['random_state'] % 3 == 0:
+      # the same question asked again on the same fitted object (same arguments, same random_state)
+      rep_again = _summ(m, spec)
+      for col in rep.columns:
+        a_, b_ = rep[col].values, rep_again[col].values
+        same = all((x_ == y_) or (isinstance(x_, float) and isinstance(y_, float) and (util.close(x_, y_, 1e-12) or (x_ != x_ and y_ != y_))) for x_, y_ in zip(a_, b_))
+        if not same:
+          viol.append(('C07:second-report-differs', dict(det, column=str(col), first=str(a_[-1]), second=str(b_[-1]))))
+          break
+      cls.append('report-asked-twice')
     if not df.equals(df_before):
       viol.append(('C07:input-frame-modified', det))
     if spec['random_state'] % 4 == 0 and spec['use_cooldown']:
